@@ -10,7 +10,9 @@ import (
 	"fmt"
 	"math/rand"
 	"os"
+	"os/exec"
 	"strconv"
+	"sync"
 	"time"
 )
 
@@ -28,6 +30,9 @@ func main() {
 	repo := flag.String("repo", "/repo", "repository")
 	obfile := flag.String("obligations", "", "JSON with the proof-obligation status from the Lean build")
 	replay := flag.String("replay", "", "replay file")
+	shards := flag.Int("shards", 1, "explore in this many parallel shard processes (thorough tier)")
+	shard := flag.Int("shard", -1, "internal: this process is shard i; results go to -shardout")
+	shardout := flag.String("shardout", "", "internal: where a shard writes its counters")
 	flag.Parse()
 
 	seed := int64(1)
@@ -69,6 +74,55 @@ func main() {
 		c.Note("replay_of", *replay)
 		replayInto(c, *replay)
 	}
-	run(c)
+	switch {
+	case *shard >= 0:
+		// shard process: own PRNG stream, a share of the budget, counters handed to the parent
+		c.Shard, c.Shards = *shard, *shards
+		c.Rng = rand.New(rand.NewSource(seed*1000003 + int64(*shard)))
+		run(c)
+		c.DumpShard(*shardout)
+		os.Exit(0)
+	case *shards > 1 && *replay == "":
+		// parent: run the shards in parallel, merge what they counted and found
+		p := props[*prop]
+		c.Rule, c.Assume = p.Rule, p.Assume
+		dir, _ := os.MkdirTemp(*verif+"/.build", "shards-")
+		defer os.RemoveAll(dir)
+		if *tier == "thorough" { // make sure every pooled key exists before the shards start
+			for _, bits := range []int{2048, 3072, 4096} {
+				for idx := 0; idx < 4; idx++ {
+					poolKeyDir(*verif, bits, idx)
+				}
+			}
+		}
+		var wg sync.WaitGroup
+		errs := make([]error, *shards)
+		for i := 0; i < *shards; i++ {
+			wg.Add(1)
+			go func(i int) {
+				defer wg.Done()
+				out := fmt.Sprintf("%s/%d.json", dir, i)
+				cmd := exec.Command(os.Args[0], "-prop", *prop, "-tier", *tier, "-driver", *drv, "-verif", *verif, "-repo", *repo,
+					"-shards", fmt.Sprint(*shards), "-shard", fmt.Sprint(i), "-shardout", out)
+				cmd.Stderr = os.Stderr
+				cmd.Env = os.Environ()
+				if err := cmd.Run(); err != nil {
+					errs[i] = fmt.Errorf("shard %d: %v", i, err)
+					return
+				}
+				errs[i] = c.MergeShard(out, i)
+			}(i)
+		}
+		wg.Wait()
+		for _, e := range errs {
+			if e != nil {
+				fmt.Fprintln(os.Stderr, e)
+				os.Exit(3) // the check script reports an abnormal end as a violation without input
+			}
+		}
+		c.Note("shards", *shards)
+	default:
+		run(c)
+	}
 	os.Exit(c.Finish(ob))
 }
